@@ -5,11 +5,37 @@ PROPS = {
         level="model_checking",
         rule="events = sm3_hash calls on generated/random messages; distinct = distinct (generator, length / bytes); "
              "non-trivial = every event (each exercises padding + compression); model states = MC_SM3 toy-exhaustive",
-        models=[dict(module="MC_SM3", about="PadImpl = Pad, padding invariants for every length 0..1100 and giant lengths; machine = Hash for all splits")],
+        models=[dict(module="AnchorSM3", anchor=True, about="SM3.tla reproduces the OpenSSL-made digests of corpus/sm3_openssl_bytes.ndjson"),
+                dict(module="MC_SM3", about="PadImpl = Pad, padding invariants for every length 0..1100 and giant lengths; machine = Hash for all splits")],
         stages=[dict(suite="sm3", trace="TraceSM3",
                      required_classes={"both": ["sm3.hash/empty", "sm3.hash/r55", "sm3.hash/r56", "sm3.hash/r63", "sm3.hash/r0", "sm3.hash/multi"]})],
         assumptions=["SM3.tla transcribes GB/T 32905 (anchored by the standard's examples and OpenSSL digests as ASSUMEs)",
                      "TLC, CommunityModules Json/IOUtils/Bitwise"],
+    ),
+    "C02": dict(
+        level="model_checking",
+        rule="events = Sm4Cipher::new / encrypt / decrypt calls; distinct = distinct (op, key-derived session, block); non-trivial = block operations and key schedules "
+             "(all are); sequences come from the TLC plan PlanSM4 (every call sequence up to the bound)",
+        models=[dict(module="AnchorSM4", anchor=True, about="SM4.tla/BlockModes.tla reproduce the 42 OpenSSL-made ECB/CBC/CFB/OFB/CTR vectors"),
+                dict(module="MC_Feistel", cfg="MC_Feistel_q", tier="quick", about="4-branch Feistel, every round function T, every key sequence, every block: Dec o Enc = id (2 rounds)"),
+                dict(module="MC_Feistel", tier="thorough", timeout=1200, about="same with 4 rounds: 16.8M states"),
+                dict(module="MC_Feistel", cfg="MC_Feistel_neg", expect="violation", about="negative: decryption with round keys in the same order must be refuted")],
+        stages=[dict(suite="sm4blk", trace="TraceSM4", plan=dict(module="PlanSM4", cfg_quick="PlanSM4_q", cfg_thorough="PlanSM4_t"),
+                     required_classes={"both": ["sm4.new/keyschedule", "sm4.enc/sm4.enc.fresh", "sm4.dec/sm4.dec.prev", "sm4.enc/sm4.enc.repeat", "sm4.dec/sm4.dec.fresh"]})],
+        assumptions=["SM4.tla transcribes GB/T 32907 (S-box defined algebraically and ASSUMEd equal to the table; standard example as ASSUME)"],
+    ),
+    "C07": dict(
+        level="model_checking",
+        rule="events = Sm4CipherMode encrypt/decrypt calls; distinct = distinct (mode, dir, key, iv, data); non-trivial = all but the bad-IV error events",
+        trivial_classes=("cbc.enc.badiv", "cbc.dec.badiv", "cfb.enc.badiv", "cfb.dec.badiv", "ofb.enc.badiv", "ofb.dec.badiv", "ctr.enc.badiv", "ctr.dec.badiv"),
+        models=[dict(module="AnchorSM4", anchor=True, about="SM4.tla/BlockModes.tla reproduce the 42 OpenSSL-made ECB/CBC/CFB/OFB/CTR vectors"),
+                dict(module="MC_Modes", tier="quick", about="toy cipher: every mode/key/IV/data string of 0..5 symbols: round trip, lengths, total decryption, IV rule, counter law"),
+                dict(module="MC_Modes", cfg="MC_Modes_t", tier="thorough", timeout=1800, about="same for strings of 0..7 symbols, 8 keys"),
+                dict(module="MC_Modes", cfg="MC_Modes_neg", expect="violation", about="negative: counter increment without carry must be refuted")],
+        stages=[dict(suite="sm4mode", trace="TraceSM4",
+                     required_classes={"both": ["sm4.mode/ctr.enc.carry", "sm4.mode/ctr.enc.wrap", "sm4.mode/cbc.enc.len0", "sm4.mode/cbc.dec.len0", "sm4.mode/cbc.enc.blocks",
+                                                "sm4.mode/cfb.dec.blocks+tail", "sm4.mode/ofb.enc.blocks+tail", "sm4.mode/cbc.enc.badiv"]})],
+        assumptions=["BlockModes.tla transcribes the standard modes (CBC+PKCS#7, CFB-128, OFB, CTR-BE128); anchored by OpenSSL-made vectors"],
     ),
 }
 
@@ -24,14 +50,28 @@ MANIFEST_TEXT = {
         technique="TLA+ trace validation with TLC (SM3 machine) + TLC exhaustive toy model of padding/iteration",
     ),
 }
+MANIFEST_TEXT["C02"] = dict(
+    text="Every recorded Sm4Cipher::new / encrypt / decrypt event of the real library is judged by the GB/T 32907 definition in SM4.tla (S-box defined "
+         "algebraically, standard example and OpenSSL ECB vectors as anchors). A session is one cipher object whose specification state is the round-key tuple "
+         "derived from the construction key and never changes, so history dependence is a deviation; call sequences are ALL sequences up to length 3 (quick) / 4 "
+         "(thorough) enumerated by TLC (PlanSM4). The Feistel inversion argument is model-checked for every round function, key sequence and block (MC_Feistel) with a negative control.",
+    note="Trusted: TLC/SANY, CommunityModules, the transcription of GB/T 32907 in SM4.tla (ASSUMEd vectors), the Debug rendering of Sm4Cipher used to read round keys, harness logging.",
+    technique="TLA+ trace validation with TLC (immutable cipher-object machine, TLC-enumerated call sequences) + exhaustive toy Feistel model",
+)
+MANIFEST_TEXT["C07"] = dict(
+    text="Every recorded Sm4CipherMode encrypt/decrypt event (every length 0..70 quick / 0..200 thorough x 4 modes x both directions, carry/wrap IVs, error cases, "
+         "OpenSSL corpus) is judged by BlockModes.tla instantiated with SM4 (anchored by 36 OpenSSL-made mode vectors); the same BlockModes module is model-checked "
+         "exhaustively over a toy cipher for every mode, key, IV and data string (round trip, lengths, total decryption, IV rule, counter law) with a negative control.",
+    note="Trusted: TLC/SANY, CommunityModules, the transcription of the modes in BlockModes.tla (OpenSSL vectors as anchors), harness logging. Where the property is silent "
+         "(inconsistent PKCS#7 padding with a valid last byte) both outcomes are allowed.",
+    technique="TLA+ trace validation with TLC (mode state machines) + exhaustive toy model of the parametric mode module",
+)
 
 NOT_APPLICABLE = {
-    "C02": "machinery for this property is not built yet in this round (specification module in progress); not claimed until its check is sound",
     "C03": "machinery for this property is not built yet in this round (specification module in progress); not claimed until its check is sound",
     "C04": "machinery for this property is not built yet in this round (specification module in progress); not claimed until its check is sound",
     "C05": "machinery for this property is not built yet in this round (specification module in progress); not claimed until its check is sound",
     "C06": "machinery for this property is not built yet in this round (specification module in progress); not claimed until its check is sound",
-    "C07": "machinery for this property is not built yet in this round (specification module in progress); not claimed until its check is sound",
     "C08": "machinery for this property is not built yet in this round (specification module in progress); not claimed until its check is sound",
     "C09": "machinery for this property is not built yet in this round (specification module in progress); not claimed until its check is sound",
     "C10": "machinery for this property is not built yet in this round (specification module in progress); not claimed until its check is sound",
